@@ -191,3 +191,50 @@ def autodim_cells(tier: str, seed: int):
                               "action": {"kind": "op", "entry": "ce", "fam": "Composite", "type": "NonPolarizingBeamSplitter", "params": {"eta": eta},
                                          "targets": [LY.rename(spec, "e0.f"), LY.rename(spec, "e1.f")]}})
     return cells
+
+
+def optics_cells(tier: str, seed: int):
+    """C11: beam splitters and phase shifters on number states, superpositions, mixtures, modes entangled with
+    polarization or a third mode; cascades; Mach-Zehnder."""
+    import math
+    cells = []
+    quick = tier == "quick"
+    etas = (0.4, -2.9, math.pi / 4) if quick else (0.4, -2.9, math.pi / 4, 1.3, 7.0, -0.05)
+    BS = lambda eta, a, b: {"kind": "op", "entry": "ce", "fam": "Composite", "type": "NonPolarizingBeamSplitter", "params": {"eta": eta}, "targets": [a, b]}
+    PS = lambda phi, a: {"kind": "op", "entry": "self", "fam": "Fock", "type": "PhaseShift", "params": {"phi": phi}, "targets": [a]}
+    n = 0
+    for eta in etas:
+        for la, lb in ((1, 0), (2, 1), (0, 2), (1, 1), (0, 0)):
+            spec = LY.make_spec([], {}, {}, default_level="L", default_cls="basis", labels={"e0.f": la, "e1.f": lb})
+            for tg in (["e0.f", "e1.f"], ["e1.f", "e0.f"]):
+                cells.append({"world": spec, "layout": "own", "levels": "L", "cls": "basis", "contraction": bool(n % 2), "seed": seed, "variant": f"|{la},{lb}>",
+                              "reordered": tg[0] != "e0.f", "action": BS(eta, *[LY.rename(spec, t) for t in tg])})
+                n += 1
+        for tag, blocks in (("ps:f1,f0", [("ps", ["e1.f", "e0.f"])]), ("ps:f0,p1", [("ps", ["e0.f", "e1.p"])]), ("env01+env1", [("env", ["e0.f", "e0.p"]), ("env", ["e1.p", "e1.f"])]),
+                            ("ps:f0,f1|p0,p1", [("ps", ["e0.f", "e1.f"]), ("ps", ["e0.p", "e1.p"])]), ("ps:f1,c0,f0,p1", [("ps", ["e1.f", "c0", "e0.f", "e1.p"])])):
+            for lv, clss in (("V", ["pure", "lowfock"]), ("M", ["mixed", "mixedlow"])):
+                for cls in clss:
+                    n += 1
+                    if quick and n % 2:
+                        continue
+                    spec = LY.make_spec(blocks, {b[1][0]: lv for b in blocks}, {}, default_level=lv, default_cls=cls, fock_dims={"e0": 3, "e1": 3})
+                    cells.append({"world": spec, "layout": tag, "levels": lv, "cls": cls, "contraction": bool(n % 3), "seed": seed, "reordered": True,
+                                  "action": BS(eta, LY.rename(spec, "e0.f"), LY.rename(spec, "e1.f"))})
+                    cells.append({"world": spec, "layout": tag, "levels": lv, "cls": cls, "contraction": bool(n % 3), "seed": seed, "reordered": True,
+                                  "action": PS(eta * 1.7, LY.rename(spec, "e1.f"))})
+    # cascades on three modes (interferometer meshes)
+    for k, (lv, cls) in enumerate((("L", "basis"), ("V", "pure"), ("M", "mixed"))):
+        for labels in ({"e0.f": 1, "e1.f": 0, "e2.f": 1}, {"e0.f": 2, "e1.f": 0, "e2.f": 0}):
+            spec = LY.make_spec([], {}, {}, envs=("e0", "e1", "e2"), customs=(), default_level=lv, default_cls=cls, labels=labels,
+                                fock_dims={"e0": 3, "e1": 3, "e2": 3})
+            R = lambda m: LY.rename(spec, m)
+            steps = [BS(0.7, R("e0.f"), R("e1.f")), PS(1.1, R("e1.f")), BS(-0.4, R("e1.f"), R("e2.f")), BS(2.2, R("e2.f"), R("e0.f"))]
+            cells.append({"world": spec, "layout": "own3", "levels": lv, "cls": cls, "contraction": True, "seed": seed, "variant": "cascade" + "".join(str(v) for v in labels.values()),
+                          "reordered": True, "action": {"kind": "seq", "steps": steps, "targets": [], "entry": "seq", "fam": "Composite", "type": "cascade"}})
+    nph = 16 if quick else 64
+    for k in range(nph):
+        phi = 2 * math.pi * k / nph * 1.5 - 1.0
+        spec = LY.make_spec([], {}, {}, customs=(), default_level="L", default_cls="basis", labels={"e0.f": 1, "e1.f": 0}, fock_dims={"e0": None, "e1": None})
+        cells.append({"world": spec, "layout": "own", "levels": "L", "cls": "basis", "contraction": True, "seed": seed, "variant": f"mzi{k}",
+                      "action": {"kind": "mzi", "phi": phi, "entry": "ce", "fam": "Composite", "type": "MachZehnder", "targets": []}})
+    return cells
